@@ -23,10 +23,18 @@ RULE = ("base projects: one Python file with 2-4 functions (unique parameter / l
         "to a new file and import it}. Both versions are analysed (run) and the call sites of all stored call paths, the P1 "
         "binding of every identifier occurrence and the taint flows (source position, sink position) must be equal after mapping "
         "positions (and the renamed name) back. Non-trivial = the base has >= 1 call edge and >= 1 flow (or >= 3 bindings) and "
-        "the edit changed the text; distinct by (base, edit sequence).")
+        "the edit changed the text; distinct by (base, edit sequence). Every frontend: core-language programs (harness/gen_core.py) "
+        "rendered in python, javascript, typescript, java, go, c and php x 1-3 edits of {blank line, comment line (never before the "
+        "first line), whole-word renaming of a function / parameter / local to a fresh name}, with the rules source = parameter p0, "
+        "sink = out(arg0), entries %unit_init and main; corpus: small files (40-2500 bytes) of the repository's per-language test "
+        "corpora with one blank or comment line put in front (quick: a seeded sample of 96, thorough: all); same three "
+        "observations, same mapping; a program on which lian fails in both versions is discarded and counted.")
 
 ASSUMPTIONS = [
     "identifiers of the generated projects are globally unique, so whole-word replacement is a consistent renaming",
+    "core-language programs: whole-word renaming of f<n> / p<n> (n >= 1) / v<n> / i<n> / w<n> renames every variable of that name in the file "
+    "consistently; p0 (named by the source rule), out and main are never renamed; swap / move / no-op edits are Python-only",
+    "corpus files get a line in front only (no knowledge of where else a line may be inserted); PHP is excluded there (text before <?php is output)",
     "after 'move function + import' the binding of the moved function's own name necessarily changes (it now resolves through an "
     "import); bindings of that name are not compared for this edit, its call edges and flows are",
     "observations are read through harness/c05_lian.py (P1 symbol space, GIR rows) and Loader.get_call_paths_p3; flows by wrapping find_flows",
@@ -150,6 +158,19 @@ def apply_edit(files, lmap, edit, meta):
             else:
                 new_map[(u, n + 1)] = old
         new_map[(unit, at + 1)] = None
+        return files, new_map, None
+    if kind == "top":
+        # a line in front of the whole file (no indentation: the file's first line is at column 0)
+        _, unit, text = edit
+        nlines = len(files[unit])
+        files[unit] = [text] + files[unit]
+        for (u, n), old in lmap.items():
+            new_map[(u, n + 1) if u == unit else (u, n)] = old
+        # lian's own line numbers may lie beyond the end of the file (its Python import preprocessor splits
+        # `import a, b` into two lines and every later row is off by one): such positions shift like the others
+        for n in range(nlines + 1, nlines + 60):
+            new_map.setdefault((unit, n + 1), (unit, n))
+        new_map[(unit, 1)] = None
         return files, new_map, None
     if kind == "noop":
         _, unit, at, text = edit
@@ -283,12 +304,26 @@ def _insert(files, lmap, unit, at, text):
 # ---------------------------------------------------------------------------------------------
 # observation
 
-def observe(files):
+def settings_dir_core():
+    """rules for the core-language programs of the other frontends: the first parameter p0 is the source, out(x) the sink"""
+    d = os.path.join(lianrun.scratch_dir(), "c12-settings-core")
+    if SETTINGS.get(("core", os.getpid())) and os.path.isdir(d):
+        return d
+    lianrun.write_settings(d, entry=[{"method_list": ["%unit_init", "main"]}],
+                           source=[{"lang": "python", "rules": [{"operation": "parameter_decl", "name": "p0"}]}],
+                           sink=[{"lang": "python", "rules": [{"operation": "call_stmt", "name": "out", "target": ["\\%arg0"]}]}])
+    SETTINGS[("core", os.getpid())] = True
+    return d
+
+
+def observe(files, lang="python", core=False):
     """-> dict(bindings, calls, flows) over (unit, line) positions, or {"error": ...}"""
     texts = {u: "\n".join(ls) + "\n" for u, ls in files.items()}
-    for u, t in texts.items():
-        compile(t, u, "exec")
-    b, res = L.analyze(texts, "python", export=False, sub_command="run", settings_dir=settings_dir(), capture_flows=True)
+    if lang == "python":
+        for u, t in texts.items():
+            compile(t, u, "exec")
+    b, res = L.analyze(texts, lang, export=False, sub_command="run",
+                       settings_dir=settings_dir_core() if core else settings_dir(), capture_flows=True)
     try:
         if b.error:
             return {"error": b.error[-400:]}
@@ -332,10 +367,12 @@ def map_obs(obs, lmap, renames, moved, orig_units=("main.py",)):
         back[fresh] = back.get(old, old)
 
     def nm(n):
+        if isinstance(n, str) and n.startswith("$") and n[1:] in back:      # PHP variables
+            return "$" + back[n[1:]]
         return back.get(n, n)
 
     def mp(p):
-        if p[1] == 0:
+        if p[1] <= 0:       # %unit_init (0) or a row without a source position (-1): not a line of the text
             return p if p[0] in orig_units else None
         return lmap.get(p, "unmapped")
     out = {"bindings": {}, "calls": set(), "flows": set()}
@@ -417,6 +454,117 @@ def oracle(case):
         out.append(((ID, ekind, "bindings", "changed"), "binding of %s changed: %s -> %s" % (k, sorted(b1.get(k) or [], key=str), sorted(b2.get(k) or [], key=str))))
     info = {"calls": len(m1["calls"]), "flows": len(m1["flows"]), "bindings": len(b1), "kinds": kinds}
     return out, info
+
+
+def oracle_frontend(case):
+    """case: {"lang", "unit", "lines", "edits"}: a core-language program rendered in one of the seven frontends, edited by
+    blank / comment lines and consistent renamings only -> (discrepancies, info)"""
+    lang, unit = case["lang"], case["unit"]
+    files = {unit: list(case["lines"])}
+    lmap = identity_map(files)
+    renames, kinds = [], []
+    f2 = files
+    for e in case["edits"]:
+        e = tuple(e)
+        f2, lmap, ren = apply_edit(f2, lmap, e, {})
+        if ren:
+            renames.append(ren)
+        kinds.append(e[0])
+    if f2[unit] == files[unit]:
+        return [], {"discard": "edit did not change the text"}
+    try:
+        o1 = observe(files, lang, core=True)
+        o2 = observe(f2, lang, core=True)
+    except SyntaxError as e:
+        return [], {"discard": "syntax", "harness_error": "edited %s program is not valid: %s" % (lang, e)}
+    ekind = "+".join(sorted(set(kinds)))
+    if "error" in o1 and "error" in o2:
+        return [], {"discard": "lian fails on both versions (%s)" % lang}
+    if "error" in o1 or "error" in o2:
+        which = "original" if "error" in o1 else "edited"
+        return [((ID, lang, ekind, "analysis-crash", which), "lian fails on the %s %s program only: %s" % (
+            which, lang, (o1.get("error") or o2.get("error"))[-200:]))], {}
+    m2 = map_obs(o2, lmap, renames, None, (unit,))
+    out = []
+    for what in ("calls", "flows"):
+        lost, gained = o1[what] - m2[what], m2[what] - o1[what]
+        if lost:
+            out.append(((ID, lang, ekind, what, "lost"), "%s: %s lost after the edit: %s" % (lang, what, sorted(lost, key=str)[:3])))
+        if gained:
+            out.append(((ID, lang, ekind, what, "gained"), "%s: %s gained after the edit: %s" % (lang, what, sorted(gained, key=str)[:3])))
+    b1, b2 = o1["bindings"], m2["bindings"]
+    diff = [k for k in set(b1) | set(b2) if b1.get(k) != b2.get(k)]
+    if diff:
+        k = sorted(diff, key=str)[0]
+        out.append(((ID, lang, ekind, "bindings", "changed"), "%s: binding of %s changed: %s -> %s" % (
+            lang, k, sorted(b1.get(k) or [], key=str), sorted(b2.get(k) or [], key=str))))
+    return out, {"calls": len(o1["calls"]), "flows": len(o1["flows"]), "bindings": len(b1), "kinds": kinds, "lang": lang}
+
+
+CORPUS_EXT = {"python": ".py", "javascript": ".js", "typescript": ".ts", "java": ".java", "go": ".go", "c": ".c"}
+
+
+def corpus_files():
+    """small files of the repository's own per-language corpora: [(lang, path relative to the repository)]"""
+    out = []
+    root = os.path.join(common.REPO, "tests")
+    for dp, dns, fns in os.walk(root):
+        dns[:] = sorted(d for d in dns if d not in ("real_cases", "benchmarks", "__pycache__", "lian_workspace"))
+        for fn in sorted(fns):
+            for lang, ext in CORPUS_EXT.items():
+                if fn.endswith(ext):
+                    path = os.path.join(dp, fn)
+                    try:
+                        if 40 <= os.path.getsize(path) <= 2500:
+                            out.append((lang, os.path.relpath(path, common.REPO)))
+                    except OSError:
+                        pass
+    return out
+
+
+def corpus_case(lang, rel, edit_kind):
+    """A corpus file with one blank or comment line put in front of it (every position shifts by one)."""
+    with open(os.path.join(common.REPO, rel), encoding="utf-8", errors="replace") as f:
+        lines = f.read().rstrip("\n").split("\n")
+    unit = lianrun.LANG_FILE[lang]
+    text = "" if edit_kind == "blank" else COMMENT.get(lang, "// note a.b = 1;")
+    return {"flavour": "frontend", "lang": lang, "unit": unit, "lines": lines, "edits": [["top", unit, text]], "corpus": rel}
+
+
+COMMENT = {"python": "# note a.b = 1", "php": "// note $a = 1;"}
+RENAMEABLE = re.compile(r"\b(f[0-9]+|p[1-9][0-9]*|[viw][0-9]+)\b")     # not p0 (the source rule names it), not out / main
+
+
+def frontend_case_strategy():
+    from hypothesis import strategies as st
+    from harness import gen_core
+
+    @st.composite
+    def cases(draw):
+        prog = draw(gen_core.programs())
+        lang = draw(st.sampled_from(gen_core.LANGS))
+        lines = gen_core.render(lang, prog).rstrip("\n").split("\n")
+        unit = lianrun.LANG_FILE[lang]
+        names = sorted(set(RENAMEABLE.findall("\n".join(lines))))
+        edits, renamed, fresh_n = [], set(), 0
+        for _ in range(draw(st.integers(1, 3))):
+            k = draw(st.sampled_from(["blank", "comment", "rename", "rename"]))
+            if k in ("blank", "comment"):
+                # never before the first line (<?php, package main)
+                at = draw(st.integers(1, max(1, len(lines))))
+                edits.append(("blank", unit, at, "" if k == "blank" else COMMENT.get(lang, "// note a.b = 1;")))
+            else:
+                pool = [n for n in names if n not in renamed]
+                if not pool:
+                    continue
+                old = pool[draw(st.integers(0, len(pool) - 1))]
+                renamed.add(old)
+                fresh_n += 1
+                edits.append(("rename", old, "zq%d" % fresh_n))
+        if not edits:
+            edits.append(("blank", unit, 1, ""))
+        return {"flavour": "frontend", "lang": lang, "unit": unit, "lines": lines, "edits": [list(e) for e in edits]}
+    return cases()
 
 
 # ---------------------------------------------------------------------------------------------
@@ -518,8 +666,65 @@ def shard(arg):
     return col
 
 
+def frontend_shard(arg):
+    seed, n_examples = arg
+    import hypothesis
+    from hypothesis import settings, HealthCheck
+    col = Collector()
+
+    @hypothesis.seed(seed)
+    @settings(max_examples=n_examples, deadline=None, database=None, derandomize=False, report_multiple_bugs=False,
+              suppress_health_check=list(HealthCheck), phases=[hypothesis.Phase.generate])
+    @hypothesis.given(frontend_case_strategy())
+    def prop(case):
+        ds, info = oracle_frontend(case)
+        col.evaluations += 1
+        if "discard" in info:
+            col.discards[info["discard"]] += 1
+            if "harness_error" in info:
+                col.error(info["harness_error"])
+            return
+        col.labels["frontend:" + case["lang"]] += 1
+        for k in info.get("kinds", []):
+            col.labels["frontend-edit:" + k] += 1
+        if info.get("bindings", 0) >= 3:
+            col.nontriv(case)
+        if info.get("flows", 0) >= 1:
+            col.labels["frontend_base_has_flow"] += 1
+        if info.get("calls", 0) >= 1:
+            col.labels["frontend_base_has_call_path"] += 1
+        for sig, what in ds:
+            col.discrepancy(sig, what, case)
+    prop()
+    lianrun.cleanup_scratch()
+    return col
+
+
+def corpus_shard(items):
+    col = Collector()
+    for lang, rel, kind in items:
+        case = corpus_case(lang, rel, kind)
+        try:
+            ds, info = oracle_frontend(case)
+        except Exception as e:
+            col.discards["corpus file not analysable by the harness (%s)" % type(e).__name__] += 1
+            continue
+        col.evaluations += 1
+        if "discard" in info:
+            col.discards["corpus: " + info["discard"]] += 1
+            continue
+        col.labels["corpus:" + lang] += 1
+        if info.get("bindings", 0) >= 3:
+            col.nontriv(["corpus", rel, kind])
+        slim = {"flavour": "frontend", "lang": lang, "unit": case["unit"], "lines": case["lines"], "edits": case["edits"], "corpus": rel}
+        for sig, what in ds:
+            col.discrepancy(sig, what, slim)
+    lianrun.cleanup_scratch()
+    return col
+
+
 def check_case(case):
-    ds, info = oracle(case)
+    ds, info = oracle_frontend(case) if case.get("flavour") == "frontend" else oracle(case)
     if "harness_error" in info:
         return [((ID, "harness"), info["harness_error"])]
     return ds
@@ -556,5 +761,19 @@ def main(tier, seed, t0):
     total = 640 if tier == "quick" else 15000
     nsh = common.NCPU * (1 if tier == "quick" else 4)
     col.merge(common.run_shards(shard, [(common.shard_seed(seed, i), total // nsh + 1) for i in range(nsh)]))
+    # the same relation in every frontend: core-language programs, blank / comment lines and consistent renamings
+    ftotal = 480 if tier == "quick" else 12000
+    col.merge(common.run_shards(frontend_shard, [(common.shard_seed(seed, 1000 + i), ftotal // nsh + 1) for i in range(nsh)]))
+    # corpus files with one line put in front (a seeded sample in the quick tier, all of them in the thorough tier)
+    allf = corpus_files()
+    import random as _random
+    rnd = _random.Random(common.shard_seed(seed, 2000))
+    rnd.shuffle(allf)
+    chosen = allf[:96] if tier == "quick" else allf
+    items = [(lang, rel, "blank" if (i + seed) % 2 else "comment") for i, (lang, rel) in enumerate(chosen)]
+    if items:
+        k = min(common.NCPU, len(items))
+        col.merge(common.run_shards(corpus_shard, [items[i::k] for i in range(k)]))
+    col.extra["corpus_files_available"] += len(allf)
     lianrun.cleanup_scratch()
     return common.finish(ID, tier, seed, col, t0, RULE, ASSUMPTIONS)
